@@ -145,6 +145,22 @@ contract(CM + 'repopulate_empty_clusters', props=['C08', 'C13', 'C09', 'C19', 'C
          # the state given is untouched in that case as well
          raises={'RuntimeError': None},
          ghost={
+                # size accounting (needs a counting argument over the relabelled points): bounded run-time check only
+                'native_ensures': [
+                    ("native:underpopulated-clusters-now-have-at-least-m",
+                     "all(sizes(result._point_labels, len(model.clusters))[k] >= model.arguments.min_cluster_size "
+                     "for k in range(len(model.clusters)) if sizes(model._point_labels, len(model.clusters))[k] < 2)"),
+                    ("native:donors-had-2m-and-keep-at-least-m",
+                     "all(sizes(model._point_labels, len(model.clusters))[k] >= 2 * model.arguments.min_cluster_size and "
+                     "sizes(result._point_labels, len(model.clusters))[k] >= model.arguments.min_cluster_size "
+                     "for k in range(len(model.clusters)) if sizes(result._point_labels, len(model.clusters))[k] < "
+                     "sizes(model._point_labels, len(model.clusters))[k])"),
+                    ("native:exactly-m-points-per-refill",
+                     "all((sizes(result._point_labels, len(model.clusters))[k] - sizes(model._point_labels, len(model.clusters))[k]) "
+                     "% model.arguments.min_cluster_size == 0 for k in range(len(model.clusters)))"),
+                    ("native:clusters-neither-donor-nor-recipient-untouched",
+                     "all(result.clusters[k].member_points == model.clusters[k].member_points for k in range(len(model.clusters)) "
+                     "if sizes(result._point_labels, len(model.clusters))[k] == sizes(model._point_labels, len(model.clusters))[k])")],
                 'xensures': {'RuntimeError': [("caller-state-not-modified-on-error", _MODEL_UNCHANGED)]},
                 'comps': {1: dict(kind='list[obj:ClusterParameters]',
                                   lemmas_end=["members_ok(model.clusters[_k]._member_points, model._point_labels, _k)",
